@@ -19,13 +19,15 @@ def run(ck):
     ck.prepare("C06")
     if not ck.harness_ok:
         return ck.finish(level="other", trusted=COMMON_TRUSTED)
-    sources = [("shape%d" % i, s) for i, s in enumerate(SHAPES)]
+    import scenarios, c14
+    sources = [("shape%d" % i, s) for i, s in enumerate(SHAPES)] + scenarios.all_sources() + list(c14.SCENARIOS)
     corp = [c for c in PC.corpus_sources()
             if not any(x in c[0] for x in ("computational_model", "credit_scoring", "docs_computational")) and len(c[1]) < 1500
             and "500" not in c[1] and "1000" not in c[1]]
     ck.rng.shuffle(corp)
     sources += corp[:25 if quick else 400]
     sources += PC.generated_sources(ck, 60 if quick else 3000, style="panic")
+    sources += PC.generated_sources(ck, 60 if quick else 3000, style="mutation")
     n = 4 if quick else 24
     jobs = [f"(compile-hash h{i} (src {quote(s)}) (n {n}))" for i, (_, s) in enumerate(sources)]
     # several fresh processes (fresh per-process hash seeds); each compiles every program n times
